@@ -160,13 +160,14 @@ def plan(tier, seed):
   k = 1 if tier == "quick" else 2
   tasks = []
 
-  def add(family, cfgs, trees, transports, concrete, part, chunk=24):
+  def add(family, cfgs, trees, transports, concrete, part, chunk=24,
+          x64=False):
     items = [(c, t, tr) for c in cfgs for t in trees for tr in transports]
     for i in range(0, len(items), chunk):
       tasks.append({"name": "%s/%s/%d" % (family, part, i // chunk),
                     "family": family, "items": items[i:i + chunk],
                     "concrete": concrete, "part": family + "_" + part,
-                    "profile": {"x64": False, "devices": 2},
+                    "profile": {"x64": x64, "devices": 2}, "x64": x64,
                     "weight": chunk})
 
   ds1 = deviations(DS_OPTIONS, 1)
@@ -205,6 +206,18 @@ def plan(tier, seed):
              {"skip_preconditioning_rank_lt": 2,
               "best_effort_memory_usage_reduction": True}],
       ["T7", "T2"], ["sharded", "plain", "batch"], False, "skipped_first")
+  # jax_enable_x64 with float32 parameters: NumPy scalars and default-dtype
+  # constructors become float64 there, the layout contract is the same
+  add("ds", deviations(DS_OPTIONS, 2), ["T2"], ["plain"], False, "x64_k2",
+      x64=True)
+  add("ds", [c for c in cl if c["block_size"] == 8 and
+             c["precondtioner_type"] == 1 and
+             c["skip_preconditioning_rank_lt"] == 1], ["T6"], ["plain"],
+      False, "x64_cluster", x64=True)
+  add("sm3", deviations(SM3_OPTIONS, 1), ["T1", "T3"], ["plain"], False,
+      "x64_k1", x64=True)
+  add("tf", tf1 + [dict(TFS_BASE)], ["T2"], ["plain"], False, "x64_k1",
+      x64=True)
   add("tf", tf1, ["T1", "T2", "T3", "T4", "T5"], ["plain"], False, "k1")
   add("tf", tf1, ["T1", "T5"], ["plain"], True, "k1_concrete", chunk=8)
   add("tf", deviations(TF_OPTIONS, 2)[len(tf1):],
@@ -366,7 +379,7 @@ def build_tearfree(cfg):
   return tf.tearfree(lr, tf.TearfreeOptions(go, so, mo))
 
 
-def check_item(acc, family, cfg, tree, transport, concrete):
+def check_item(acc, family, cfg, tree, transport, concrete, x64=False):
   import jax
   import jax.numpy as jnp
   from jax.sharding import Mesh, PartitionSpec as P
@@ -378,7 +391,9 @@ def check_item(acc, family, cfg, tree, transport, concrete):
   if cfg:
     acc.nontrivial += 1
   kf = {"family": family, "transport": transport,
-        "param_dtype": "bfloat16" if tree in BF16_TREES else "float32"}
+        "param_dtype": "bfloat16" if tree in BF16_TREES else "float32",
+        "x64": bool(x64), "fd": bool(cfg.get("frequent_directions"))}
+  case["jax_enable_x64"] = bool(x64)
 
   def viol(kind, what):
     acc.outcome("viol_" + kind)
@@ -556,7 +571,8 @@ def run_task(task):
   acc = Acc(task["name"])
   for cfg, tree, transport in task["items"]:
     try:
-      check_item(acc, task["family"], cfg, tree, transport, task["concrete"])
+      check_item(acc, task["family"], cfg, tree, transport, task["concrete"],
+                 task.get("x64", False))
     except Exception as e:  # pylint: disable=broad-except
       acc.violation("C07|%s|%s|%s|%s|harness" % (task["family"], cname(cfg),
                                                 tree, transport),
